@@ -53,14 +53,27 @@ func (q *MultiOpQueryer) Subscribe(req *requests.Request, closeCh <-chan struct{
 		conn.Close()
 	}()
 
+	// send delivers response unless subscription is closed by the other side
+	send := func(resp *requests.Response) bool {
+		select {
+		case resCh <- resp:
+			return true
+		case <-closeCh:
+			return false
+		}
+	}
+
 	go func() {
+		var isStarted bool
 		defer func() {
 			defer func() {
 				recover()
 			}()
 			conn.Close()
-			// indicate that it's done
-			resCh <- nil
+			// indicate that it's done, nobody listens if subscription has not been started
+			if isStarted {
+				send(nil)
+			}
 		}()
 
 		bInitMsg, err := json.Marshal(requests.ClientSubMsg{
@@ -93,6 +106,7 @@ func (q *MultiOpQueryer) Subscribe(req *requests.Request, closeCh <-chan struct{
 		}
 
 		// init proccess is done
+		isStarted = true
 		errCh <- nil
 
 		for {
@@ -108,8 +122,10 @@ func (q *MultiOpQueryer) Subscribe(req *requests.Request, closeCh <-chan struct{
 				if innerErr := json.Unmarshal(msg, &serverErrorResp); innerErr != nil {
 					return
 				}
-				resCh <- &requests.Response{
+				if !send(&requests.Response{
 					Errors: serverErrorResp.Payload,
+				}) {
+					return
 				}
 				continue
 			}
@@ -121,7 +137,9 @@ func (q *MultiOpQueryer) Subscribe(req *requests.Request, closeCh <-chan struct{
 				requests.SubError:
 				return
 			case requests.SubData:
-				resCh <- serverResp.Payload
+				if !send(serverResp.Payload) {
+					return
+				}
 			}
 		}
 	}()
